@@ -10,7 +10,7 @@ import jax.numpy as jnp
 from jax.extend import core as jcore
 from fractions import Fraction
 
-from .symdom import S, Ctx, Unsupported
+from .symdom import S, Ctx, Unsupported, Ext
 
 jax.config.update("jax_enable_x64", True)
 
@@ -265,6 +265,8 @@ class Interp:
     # ---- sign dependent
     def sign_of(self, s):
         """+1/-1/0 if decidable else None"""
+        if isinstance(s, Ext):
+            return s._sgn()
         if s.is_zero():
             return 0
         c = s.as_const()
@@ -328,7 +330,12 @@ class Interp:
         return self._bin(i, f)
 
     def p_is_finite(self, i, p, e):
-        return np.ones(i[0].shape, dtype=bool)
+        a = i[0]
+        out = np.ones(a.shape, dtype=bool)
+        of = out.reshape(-1)
+        for k, x in enumerate(a.reshape(-1)):
+            of[k] = not isinstance(x, Ext)
+        return out
 
     def p_select_n(self, i, p, e):
         pred = i[0]
@@ -443,6 +450,9 @@ class Interp:
         nys = len(cj.jaxpr.outvars) - ncar
         ys = []
         for k in range(nys):
+            if length == 0:
+                ys.append(np.zeros(tuple(e.outvars[ncar + k].aval.shape)))
+                continue
             items = [c[k] for c in collected]
             if any(is_sym(x) for x in items):
                 items = [self.lift_arr(x) for x in items]
